@@ -140,8 +140,10 @@ def run_unit(spec_path, root, seed=None, canary=True, std_contracts=None, tag=""
         # caller-side precondition failures: attribute to the function whose body contains the call (primary span may
         # point into the callee's requires clause)
         if "precondition" in low:
-            for s in d.get("spans", []):
-                if not s.get("is_primary") and s["line_start"] in g.map:
+            # Verus marks the CALL SITE as primary and the callee's failed `requires` clause as secondary
+            f["callee_clause_line"] = next((s["line_start"] for s in d.get("spans", []) if not s.get("is_primary")), None)
+            for s in prim:
+                if s["line_start"] in g.map and g.map[s["line_start"]][4] != "external":
                     o = g.map[s["line_start"]]
                     f.update(fn=o[2], file=o[0], line=o[1], obligations=list(o[3]), kind=o[4])
                     break
